@@ -1002,3 +1002,43 @@ pub fn gen_wide_room_range(r: &mut Rng) -> Inst {
     rooms.push(1);
     Inst { courses, parts, rooms: Some(rooms) }
 }
+
+/// f32 dial for the ORDER OF ROUNDING in the effective course size: triples (factor, offset, people) for
+/// which `ceil(offset + factor * people)` computed with two roundings (product, then sum — what the code
+/// does) differs from the single rounding of a fused multiply-add. Course A is wanted by exactly that many
+/// people; the first room has exactly the SMALLER of the two sizes, so the two computations disagree on
+/// whether A fits.
+pub fn fma_sensitive_triples() -> Vec<(f32, f32, usize, usize)> {
+    let factors = [1.1f32, 1.2, 1.3, 0.7, 2.7, 3.3, 0.3, 0.6, 1.7, 2.3, 0.9];
+    let offsets = [0.1f32, 0.4, 0.6, 0.7, 1.3, 0.3, 0.9, 2.1];
+    let mut cands: Vec<(f32, f32, usize, usize)> = vec![];
+    for f in factors.iter() {
+        for o in offsets.iter() {
+            for n in 2..24usize {
+                let sep = (*o + *f * n as f32).ceil();
+                let fused = f.mul_add(n as f32, *o).ceil();
+                if sep != fused {
+                    cands.push((*f, *o, n, sep.min(fused) as usize));
+                }
+            }
+        }
+    }
+    cands
+}
+
+pub fn gen_f32_fma_sensitive(r: &mut Rng) -> Inst {
+    let cands = fma_sensitive_triples();
+    let (f, off, n, room) = cands[r.usize(cands.len())];
+    let extra = r.usize(3);
+    let np = n + extra;
+    let courses = vec![
+        CourseDump { index: 0, dbid: 100, name: "A".into(), num_min: if r.chance(1, 2) { n } else { n.saturating_sub(1) }, num_max: n, instructors: vec![],
+            room_factor: f, room_offset: off, fixed_course: r.chance(1, 4), hidden_participant_names: vec![] },
+        CourseDump { index: 1, dbid: 101, name: "B".into(), num_min: 0, num_max: np, instructors: vec![],
+            room_factor: 1.0, room_offset: 0.0, fixed_course: false, hidden_participant_names: vec![] },
+    ];
+    let parts: Vec<ParticipantDump> = (0..np)
+        .map(|i| ParticipantDump { index: i, dbid: 1000 + i, name: format!("p{}", i), choices: if i < n { vec![(0, 0), (1, 2)] } else { vec![(1, 0), (0, 1)] } })
+        .collect();
+    Inst { courses, parts, rooms: Some(vec![room, np + 3]) }
+}
